@@ -78,6 +78,7 @@ def run(check, prog):
     c06.channel_axis_first(check, prog)
     dimension_names(check, prog)
     description_probe(check, prog)
+    tiff_description_name(check, prog)
 
 
 NAME_SINKS = ('transpose', 'rename', 'stack', 'unstack', 'expand_dims', 'swap_dims')
@@ -219,6 +220,41 @@ def description_probe(check, prog):
                       '\\nNote: gain: high", a leading tab, "@ 25 fps") raises '
                       'yaml.scanner.ScannerError and cannot be loaded' % (
                           fn, ', '.join(hs) or 'nothing'))
+
+
+def tiff_description_name(check, prog):
+    """U11: the description written into a TIFF carries the name the image is
+    loaded under.  `load` reads `meta['name']` and treats a description without
+    it as no metadata at all (spacing, optics, noise and the scaling needed to
+    undo the quantisation are then lost), so `_save_im` must pack the attributes
+    of the image *after* an unnamed image has been given its default name: the
+    image handed to pack_attrs carries that store."""
+    q = IO + '_save_im'
+    fd = prog.func(q)
+    loc = prog.loc(q, fd)
+    im = sym(fd.args.args[1].arg)
+    it = Interp(prog, max_depth=1, opaque=[IO + 'pack_attrs'])
+    it.analyze(q)
+    pk = [c for c in it.calls if c['name'] == IO + 'pack_attrs']
+    check.need('pack_attrs calls in _save_im', len(pk), 1, 'U11-tiff-description-name',
+               '_save_im packs the metadata', 'the TIFF description is built from '
+               'pack_attrs(image)', loc)
+    for c in pk:
+        a = call_args(prog, c).get('a')
+        named = a is not None and any(
+            x[0] == 'upd' and x[2] == 'attr' and x[3] == 'name' and
+            any(y == im for y in subterms(x[1])) for x in subterms(a))
+        reads_name = any(y == ('attr', im, 'name') for e in it.effects
+                         if e['kind'] == 'setattr' and e.get('attr') == 'name'
+                         for t, p in e['cond'] for y in subterms(t))
+        check.require(named, 'U11-tiff-description-name', '_save_im description',
+                      'the image whose attributes are packed already has its '
+                      'default name', loc,
+                      fail_detail='pack_attrs receives %s: for an unnamed image '
+                      '(holo / bg of differently named operands) the description '
+                      'is written without a name entry, and hp.load of the file '
+                      'raises NoMetadata -- spacing, optics and the stored '
+                      'scaling are lost' % show(a)[:80])
 
 
 def load_unpacks(check, prog):
